@@ -48,6 +48,23 @@ BuildMk(qs, baseSeq) == Build(PairsOf(qs), baseSeq, SettleTags(qs))
 \* C09 owns construction and VALUES (in every state a history reaches: the quoted pairs, the diagonal and the path
 \* products must hold whatever operations came before); C10 additionally owns sensitivities
 Sens == Prop # "C09"
+\* The attributes and methods Python sees (rust/fx/rates_py.rs) are views of the same state: `currencies`, `base` (the
+\* first currency), `ad`, `fx_array` (the whole matrix), `fx_vector` (its base row), `rate(lhs, rhs)`, `get_ccy_index`,
+\* `fx_rates` (the quotes as given, with pair / rate / ad / settlement getters), `__copy__` / `__eq__`.  Each must agree,
+\* bit for bit, with the projection of the core object logged next to it.
+PyViewOK(s) ==
+  LET p == s.py n == Len(s.ccys) IN
+  /\ ~("fail" \in DOMAIN p)
+  /\ p.ccys = s.ccys /\ p.base = s.ccys[1] /\ p.ad = s.order /\ p.copy_eq /\ p.outsider_none
+  /\ p.idx = [i \in 1..(n + 1) |-> IF i <= n THEN i - 1 ELSE -1]
+  /\ Len(p.array) = n * n /\ Len(p.rate) = n * n /\ Len(p.vector) = n
+  /\ \A q \in 1..(n * n) : /\ p.array[q].re = s.re[q] /\ p.array[q].g = s.g[q] /\ p.array[q].k = s.kinds[q]
+                            /\ p.rate[q] = p.array[q]
+  /\ \A j \in 1..n : p.vector[j] = p.array[j]                                      \* the base row
+  /\ Len(p.quotes) = Len(s.quotes)
+  /\ \A k \in 1..Len(s.quotes) : /\ p.quotes[k].pair = s.quotes[k].l \o s.quotes[k].r /\ p.quotes[k].v = s.quotes[k].v
+                                   /\ p.quotes[k].settle = s.quotes[k].settle
+                                   /\ p.quotes[k].ad = (CASE s.quotes[k].kind = "F" -> 0 [] s.quotes[k].kind = "D1" -> 1 [] s.quotes[k].kind = "D2" -> 2)
 \* does the logged projection `s` agree with the specification's market (st, qs, order)?
 StateOK(st, qs, order, s) ==
   LET n == Len(st.idx)
@@ -57,6 +74,7 @@ StateOK(st, qs, order, s) ==
      /\ s.order = order
      /\ Len(s.re) = n * n
      /\ s.unknown_none
+     /\ ("py" \in DOMAIN s => PyViewOK(s))
      /\ Len(s.quotes) = Len(qs)
      /\ \A k \in 1..Len(qs) : s.quotes[k].l = qs[k].l /\ s.quotes[k].r = qs[k].r /\ s.quotes[k].v = qs[k].v
      /\ \A i, j \in 1..n :
